@@ -14,34 +14,102 @@ def smt2_of(obl):
     return s.to_smt2()
 
 
-def discharge(obl, timeout_ms=20000, seeds=(0, 7, 23), use_cvc5=True, want_model=False):
-    """Returns dict(status=proved|refuted|unknown, backend, seconds, model?)"""
+PORTFOLIO = [
+    ("z3 default", {}),
+    ("z3 mbqi-only", {"smt.ematching": False}),
+    ("z3 seed7", {"smt.random_seed": 7}),
+    ("z3 ematching-only", {"smt.mbqi": False, "smt.random_seed": 3}),
+]
+
+
+def _symbols(e, cache):
+    k = e.get_id()
+    if k in cache:
+        return cache[k]
+    out = set()
+    seen = set()
+    todo = [e]
+    while todo:
+        x = todo.pop()
+        i = x.get_id()
+        if i in seen:
+            continue
+        seen.add(i)
+        if z3.is_quantifier(x):
+            todo.append(x.body())
+            for p in range(x.num_patterns()):
+                todo.append(x.pattern(p))
+        elif z3.is_app(x):
+            if x.decl().kind() == z3.Z3_OP_UNINTERPRETED:
+                out.add(x.decl().name())
+            todo.extend(x.children())
+    cache[k] = out
+    return out
+
+
+def slices(obl, levels=(1, 2, 3)):
+    """Relevance slices of the hypotheses: those sharing an uninterpreted symbol with the goal,
+    transitively to depth k.  Proving from a subset of the hypotheses is sound."""
+    cache = {}
+    hs = [(h, _symbols(h, cache)) for h in obl.hyps]
+    cur = set(_symbols(obl.goal, cache))
+    out = []
+    chosen = []
+    for lvl in range(1, max(levels) + 1):
+        chosen = [h for h, sy in hs if sy & cur]
+        for h, sy in hs:
+            if sy & cur:
+                cur = cur | sy
+        if lvl in levels and len(chosen) < len(hs):
+            if not out or len(chosen) > len(out[-1][1]):
+                out.append(("slice%d" % lvl, chosen))
+    out.append(("all", list(obl.hyps)))
+    return out
+
+
+def _try(hyps, goal, cfg, tmo, want_model=False):
+    s = z3.Solver()
+    s.set("timeout", int(max(tmo, 300)))
+    for k, v in cfg.items():
+        s.set(k, v)
+    s.add(*hyps)
+    s.add(z3.Not(goal))
+    r = s.check()
+    return r, s
+
+
+def discharge(obl, timeout_ms=20000, use_cvc5=True, want_model=False, **_):
+    """Portfolio over relevance slices x solver configurations.  The first `unsat` proves the
+    obligation (a subset of the hypotheses suffices); `sat` on the full set refutes it."""
     t0 = time.time()
     last = "unknown"
-    for k, seed in enumerate(seeds):
-        s = z3.Solver()
-        s.set("timeout", int(timeout_ms if k == 0 else timeout_ms // 2))
-        if seed:
-            s.set("random_seed", seed)
-            s.set("smt.random_seed", seed) if False else None
-        s.add(*obl.hyps)
-        s.add(z3.Not(obl.goal))
-        r = s.check()
+    sl = slices(obl)
+    plan = []
+    for budget in (500, timeout_ms // 5):
+        for sname, hyps in sl:
+            for cname, cfg in PORTFOLIO[:2] if budget == 500 else PORTFOLIO:
+                plan.append((sname, hyps, cname, cfg, budget))
+    deadline = t0 + 2.5 * timeout_ms / 1000.0
+    for sname, hyps, cname, cfg, budget in plan:
+        if time.time() > deadline:
+            break
+        r, s = _try(hyps, obl.goal, cfg, budget)
         if r == z3.unsat:
-            return {"status": "proved", "backend": "z3-%s seed=%d" % (z3.get_version_string(), seed), "seconds": time.time() - t0}
-        if r == z3.sat:
-            out = {"status": "refuted", "backend": "z3-%s seed=%d" % (z3.get_version_string(), seed), "seconds": time.time() - t0}
+            return {"status": "proved", "backend": "%s/%s (z3 %s)" % (cname, sname, z3.get_version_string()), "seconds": time.time() - t0}
+        if r == z3.sat and sname == "all":
+            out = {"status": "refuted", "backend": "%s (z3 %s)" % (cname, z3.get_version_string()), "seconds": time.time() - t0}
             if want_model:
                 out["model"] = s.model()
             return out
-        last = s.reason_unknown()
+        if r == z3.unknown:
+            last = s.reason_unknown()
     if use_cvc5:
-        r = cvc5_check(smt2_of(obl), timeout_ms)
+        r = cvc5_check(smt2_of(obl), timeout_ms // 2)
         if r == "unsat":
             return {"status": "proved", "backend": "cvc5", "seconds": time.time() - t0}
         if r == "sat":
             return {"status": "refuted", "backend": "cvc5", "seconds": time.time() - t0}
-    return {"status": "unknown", "backend": "z3+cvc5", "seconds": time.time() - t0, "reason": str(last)}
+    return {"status": "unknown", "backend": "z3 portfolio + cvc5", "seconds": time.time() - t0, "reason": str(last)}
 
 
 def cvc5_check(smt2, timeout_ms):
